@@ -48,7 +48,8 @@ RULE = ('25 well-formed base workflows (chains, diamond, colliding names A/AA/BA
         'fault kinds / open) BEFORE it is loaded. Judged at F: accepted => DAG over graph edges plus reference-implied '
         'edges, unique ids, every component reference is a node or loop placeholder, every node configuration resolves; '
         'broken => ExperimentInvalidConfigurationError within the time limit. Judged at G: only accepted => the same '
-        'soundness conditions. A case is non-trivial/distinct per (base, platform, mutation descriptor); the unmutated '
+        'soundness conditions (quick: for the key/type families G is loaded only when F did not cleanly reject; '
+        'thorough: always). A case is non-trivial/distinct per (base, platform, mutation descriptor); the unmutated '
         'bases are cases too.')
 ASSUMPTIONS = [
     '"invalid-configuration error" = experiment.model.errors.ExperimentInvalidConfigurationError (or a subclass)',
@@ -80,16 +81,28 @@ def _alarm(signum, frame):
     raise CaseTimeout()
 
 
+_DUMPER = getattr(yaml, 'CSafeDumper', yaml.SafeDumper)     # the harness' own YAML work: libyaml when available
+_LOADER = getattr(yaml, 'CSafeLoader', yaml.SafeLoader)
+
+
+def _dump(obj):
+    return yaml.dump(obj, Dumper=_DUMPER, sort_keys=False)
+
+
+def _load(text):
+    return yaml.load(text, Loader=_LOADER)
+
+
 def dump_texts(root):
-    texts = {'conf/flowir_package.yaml': yaml.safe_dump(root['doc'], sort_keys=False)}
+    texts = {'conf/flowir_package.yaml': _dump(root['doc'])}
     if root.get('dowhile') is not None:
-        texts['conf/dowhile.yaml'] = yaml.safe_dump(root['dowhile'], sort_keys=False)
+        texts['conf/dowhile.yaml'] = _dump(root['dowhile'])
     return texts
 
 
 def root_from_texts(texts):
-    return {'doc': yaml.safe_load(texts['conf/flowir_package.yaml']),
-            'dowhile': yaml.safe_load(texts['conf/dowhile.yaml']) if 'conf/dowhile.yaml' in texts else None}
+    return {'doc': _load(texts['conf/flowir_package.yaml']),
+            'dowhile': _load(texts['conf/dowhile.yaml']) if 'conf/dowhile.yaml' in texts else None}
 
 
 def write_pkg(d, texts, files):
@@ -167,7 +180,16 @@ def _msg(e):
     return s[:400]
 
 
+def _imports():
+    """Import the code under test OUTSIDE the timed region (a cold import on a busy machine can take many seconds)."""
+    import experiment.model.conf
+    import experiment.model.errors
+    import experiment.model.frontends.flowir
+    import experiment.model.graph
+
+
 def timed(fn, *a):
+    _imports()
     old = signal.signal(signal.SIGALRM, _alarm)
     signal.setitimer(signal.ITIMER_REAL, TIMEOUT_S)
     try:
@@ -179,7 +201,10 @@ def timed(fn, *a):
         signal.signal(signal.SIGALRM, old)
 
 
-def judge(col, case, scratch):
+BULK = ('misspell', 'mistype', 'addkey', 'setopt')
+
+
+def judge(col, case, scratch, all_entries=True):
     """case = {'base', 'platform', 'mut' (None for the base itself), 'texts', 'files', 'nonc'}"""
     texts, platform, nonc = case['texts'], case['platform'], case['nonc']
     root = root_from_texts(texts)
@@ -200,12 +225,21 @@ def judge(col, case, scratch):
     col.evaluated()
     col.nontriv([case['base'], platform, case['mut']])
     tag = 'broken[%s%s]' % ('+'.join(faults), where) if faults else ('open[%s]' % '+'.join(an.grey_classes())[:60] if verdict == 'grey' else 'valid')
+    f_result = None
     for entry, loader in (('F', load_factory), ('G', load_graph)):
+        if entry == 'G' and not all_entries and kind in BULK and f_result == 'rejected':
+            # quick tier: G is only judged for soundness, i.e. when it accepts; for the bulk key/type families it is
+            # loaded when F did not cleanly reject (thorough loads G for every case)
+            shutil.rmtree(d, ignore_errors=True)
+            col.count('quick_tier_G_not_loaded_after_clean_F_rejection')
+            break
         try:
             res, etype, msg, obs = timed(loader, pkg, platform)
         finally:
             if entry == 'G':
                 shutil.rmtree(d, ignore_errors=True)
+        if entry == 'F':
+            f_result = res
         col.traces += 1
         seen = res if res in ('accepted', 'hang') else '%s:%s' % (res, etype)
         col.outcome('%s|%s|%s|%s' % (entry, kind, tag if len(tag) < 70 else tag[:70], seen))
@@ -217,9 +251,14 @@ def judge(col, case, scratch):
         if case['mut'] is None and res != 'accepted':
             raise HarnessError('base %s (platform %s) does not load at %s: %s %s' % (case['base'], platform, entry, etype, msg))
         if res == 'hang':
-            if faults or True:
-                col.fail(c, '%s: loading did not finish within %d s (document is %s)' % (entry, TIMEOUT_S, tag), info,
-                         sig='%s:hang:%s' % (entry, '+'.join(faults) or verdict))
+            if entry == 'F' and faults:
+                col.fail(c, 'F: a workflow containing %s is not rejected, loading did not finish within %d s'
+                         % (', '.join(faults), TIMEOUT_S), info, sig='F:hang:%s%s' % ('+'.join(faults), where))
+            else:
+                # neither accepted nor rejected: nothing the statement lets us judge, but never silently
+                col.count('hang_on_unjudged_document_%s' % entry)
+                col.note('a load of a document that is not judged for completeness did not finish within %d s (%s, %s)'
+                         % (TIMEOUT_S, entry, case['base']))
             continue
         if res == 'accepted':
             if 'graph_error' in obs:
@@ -230,9 +269,9 @@ def judge(col, case, scratch):
                     col.fail(c, '%s accepted the workflow but %s' % (entry, why), dict(info, obs=obs),
                              sig='%s:%s' % (entry, sig))
             if inactive and not faults:
-                col.count('observed_accepted_fault_outside_active_configuration_%s' % entry)
+                col.count('observed_unjudged_fault_accepted_%s' % entry)
         elif inactive and not faults:
-            col.count('observed_rejected_fault_outside_active_configuration_%s' % entry)
+            col.count('observed_unjudged_fault_rejected_%s' % entry)
         if entry == 'F' and faults:
             if res == 'accepted':
                 col.fail(c, 'F accepted a workflow that contains: %s (%s)' % (', '.join(faults), _describe(an)), info,
@@ -280,7 +319,7 @@ def worker(col, item, tier, seed):
     with scratch_dir('c11-') as scratch:
         if shard == 0:
             case = make_case(base, platform, None)
-            judge(col, case, scratch)
+            judge(col, case, scratch, True)
             col.sample({'base': bid, 'platform': platform, 'mut': None})
         for i, mut in enumerate(GEN.mutations(base, platform, thorough)):
             if i % nshards != shard:
@@ -289,13 +328,16 @@ def worker(col, item, tier, seed):
                 case = make_case(base, platform, mut)
             except Exception as e:
                 raise HarnessError('cannot apply %r to %s: %r' % (mut, bid, e))
-            judge(col, case, scratch)
+            judge(col, case, scratch, thorough)
             col.count('mutations_%s' % mut['kind'])
             if i < 2 * nshards and shard == 0:
                 col.sample({'base': bid, 'platform': platform, 'mut': mut})
 
 
 def run(ctx):
+    bad = V.selfcheck()
+    if bad:
+        raise HarnessError('the reference model fails its hand-computed cases: %s' % '; '.join(bad))
     items = []
     for base in GEN.bases():
         for platform in base['platforms']:
@@ -375,7 +417,7 @@ def _sel_import_entry_errors_dropped(f):
     if len(path) != 3 or path[:2] != ['doc', 'components']:
         return False
     try:
-        comps = yaml.safe_load(f['case']['texts']['conf/flowir_package.yaml'])['components']
+        comps = _load(f['case']['texts']['conf/flowir_package.yaml'])['components']
         return '$import' in comps[path[2]]
     except Exception:
         return False
